@@ -337,13 +337,11 @@ theorem RInv_step_deliver {c : Cluster} (h : RInv c) (j idx : Nat) :
     cases hm : c.sent[idx]? with
     | none => simp only [step, hs, hm]; exact h
     | some m =>
-      by_cases ho : m.origin = j
-      · simp only [step, hs, hm, ho, if_true]; exact h
       · have hstep : c.step (.deliver j idx) =
             { c with
               nodes := c.nodes.set j (Shard.applyRemote s m.key m.val)
               log := c.log ++ [⟨j, m.key, m.val⟩] } := by
-          simp only [step, hs, hm, ho, if_false]
+          simp only [step, hs, hm]
         rw [hstep]
         have hsmem : s ∈ c.nodes := List.mem_of_getElem? hs
         have hmmem : m ∈ c.sent := List.mem_of_getElem? hm
